@@ -23,6 +23,8 @@ def check_case(run, case):
         probs = {int(v): float(p) for v, p in oracles.read_rows(os.path.join(path, 'Omen', 'pcfg_omen_prob.txt'), enc)}
         per = {int(v): int(p) for v, p in oracles.read_rows(os.path.join(path, 'Omen', 'omen_pws_per_level.txt'), enc)}
         Npw = res.passes[0]['num_passwords']
+        # how many training passwords sit at each level, by the reference model read from the files (not the trainer's own per-level file)
+        per_ref = Counter(model.level(pw) for pw in res.passes[0]['yielded'])
         if not ks:
             run.inconc('no keyspace listed'); return
         top = max(ks)
@@ -43,9 +45,9 @@ def check_case(run, case):
                 if L in probs:
                     run.violation(f'level {L} has keyspace 0 but a probability', case); return
                 continue
-            exp = (per.get(L, 0) / Npw) / k
+            exp = (per_ref.get(L, 0) / Npw) / k
             if L not in probs or abs(probs[L] - exp) > 1e-12 * max(exp, 1e-300):
-                run.violation(f'level {L}: pcfg_omen_prob is {probs.get(L)!r}, expected (pws at level / N) / keyspace = ({per.get(L, 0)}/{Npw})/{k}', case); return
+                run.violation(f'level {L}: pcfg_omen_prob is {probs.get(L)!r}, expected (training passwords at that level / N) / keyspace = ({per_ref.get(L, 0)}/{Npw})/{k}; the per-level file of the trainer says {per.get(L, 0)}', case); return
             if k >= 2:
                 run.nontrivial(h([case['items'], case['ngram'], case['max_len'], L]))
         extra = set(probs) - set(ks)
